@@ -95,7 +95,7 @@ class C17(PropBase):
             "partner strings (ordinary, '..', '', drive-prefixed), plus random long strings with mixed separators, drive and UNC "
             "prefixes, plus the hostile-name dictionary (every core '..', '', 'C:', '.', encoded separators in every spelling x wrapper "
             "(whitespace, markers, extensions, the checkout's own string literals) x position x directory style x role); url probe: every percent "
-            "spelling of . : / \\ ? # % @, all dot-segment spellings, server-URL cases; ids nil / ordinary / maximal / PDB2.0 / absent, code ids with "
+            "spelling of . : / \\ ? # % @, all dot-segment spellings, server-URL cases; raw references for Url::join (schemes x slash runs x authorities/paths, random); ids nil / ordinary / maximal / PDB2.0 / absent, code ids with "
             "non-hex bytes; a case is non-trivial when at "
             "least one builder returned a path; distinct = distinct case lines")
     trusted_base = [
@@ -106,16 +106,24 @@ class C17(PropBase):
         "(http.rs; rest of that body pinned as text) to Gallina over C17/Prims.v — one hand-written definition per std operation (rsplit/split/rfind on "
         "ASCII patterns, Iterator::next/last, Option combinators, Vec pop/push/join, String::pop = one character, slices); the generated functions are "
         "proved equal to the hand-written model C17/Model.v (c17_src_tie) and are what the extracted driver runs against the real code",
-        "translate/c17_flow.py (regex / bracket matching, no type information): join sites and file-system sinks of lib.rs / http.rs with the provenance "
-        "of roots, joined strings and sink paths followed through let-bindings, parameters (every call site in the crate) and the Ok(..) values of "
-        "self.locate_file; unknown provenance is reported, not guessed; joins / sinks spelled in a way its patterns do not know are outside the guard; "
+        "translate/c17_flow.py (regex / bracket matching, no type information): join sites and file-system sinks of EVERY file of the breakpad-symbols "
+        "crate with the provenance of roots, joined strings and sink paths followed through let-bindings, parameters (every call site in the crate) and "
+        "the Ok(..) values of self.locate_file; unknown provenance is reported, not guessed; a callee census closes the vocabulary: in every file that "
+        "mentions a path / file-system word every callee name (function path, method, macro) must be on the translator's reviewed list (else it aborts), "
+        "every call anywhere in the crate of a callee that reaches the file system must be one of the derived sinks, a file-system function passed as a "
+        "value aborts, in-place edits (.push/.pop/.set_file_name/...) outside the compiled builders are listed with the kind of their receiver "
+        "(heuristic: declared types and binding expressions); still outside: calls through closures / function pointers / trait objects of other "
+        "crates, `.into()` / `.parse()` conversions into a PathBuf, macros that expand to file-system calls; "
         "translate/join_sites.py + C17/Consumers.v: the older textual pin of every .join( / join_rel( call",
         "Path::join modelled from std's PathBuf::push (unix exactly; windows for the cases that matter: drive / double-separator "
         "/ rooted arguments); the POSIX join is additionally executed for real on every produced path by the harness; Path::parent is not modelled; "
         "C17/UrlModel.v: the part of url 2.5.4's Url::join that applies to a reference against an http(s) base (trimming, "
         "scheme detection, relative/absolute/authority/query/fragment branches, PATH encode set, dot-segment spellings, pop/shorten), written by "
-        "hand from parser.rs and validated against the real crate by the url probe (lookup cases + server-URL cases; the scheme/authority "
-        "branches are not reachable through the public API and are validated by reading only); host, query, fragment not modelled",
+        "hand from parser.rs and validated against the real crate by the url probe (lookup cases + server-URL cases); C17/UrlFull.v: the whole "
+        "dispatch of Url::join for a special non-file base (parse_scheme, parse_with_scheme incl. the same-scheme-is-relative rule, file / non-special "
+        "schemes, authority after two or more slashes or backslashes, absolute paths), compared with the real url crate on ~21k raw references per build "
+        "(c17 --url-join: scheme, userinfo, host, port and path of base.join(reference)); the authority TEXT is not interpreted (host parsing, IDNA, "
+        "ports: a selected authority may still be rejected by the real parser); query, fragment not modelled",
         "str::to_lowercase / to_uppercase modelled as ASCII case mapping (compared with 'pdb'/'dll': the only non-ASCII char lowering to ASCII is U+212A -> k; "
         "code ids are hex text)",
         "C17/IdModel.v: DebugId parse / BreakpadFormat rendering and CodeId::new written by hand from debugid 0.8.0 (outside /repo, not translated), "
@@ -133,28 +141,32 @@ class C17(PropBase):
                 "has no drive prefix and no `..` component (c17_src_relative, c17_src_code_info_contained, c17_src_moz; moz_lookup's unwrap never panics); "
                 "joining it onto any root under POSIX or Windows Path::join rules (incl. verbatim roots) or by concatenation keeps the root a prefix, and through "
                 "join_rel + WHATWG reference resolution (Url::join) it is requested below the base directory of every base path (c17_src_contained, "
-                "c17_join_contained, c17_join_verbatim_contained, c17_url_join_contained; refuted without the encoding); at the level of std::path components "
+                "c17_join_contained, c17_join_verbatim_contained, c17_url_join_contained; refuted without the encoding); for ALL byte strings, safe or not, the "
+                "request never leaves the configured server's scheme and leaves its host exactly for a leading `//` (c17_url_resolve_all_strings, "
+                "c17_url_resolve_exact on the full model of Url::join's dispatch, c17_url_resolve_contained, c17_url_models_agree); at the level of std::path components "
                 "on unix the joined cache path and its parent directory (create_dir_all) keep the root's components in front (c17_path_join_components, "
                 "c17_cache_paths_below_root; component model compared with the real std::path on every produced path). What is answered is pinned too "
                 "(c17_src_available, c17_src_declines). Consumers, derived from the source by "
                 "data flow: every .join( / join_rel( of SimpleSymbolSupplier / HttpSymbolSupplier joins a string that came out of a lookup builder onto a symbol "
                 "dir / cache dir / server URL, and it stays below that root for every module and kind (c17_src_consumers_known, c17_src_consumers_contained); "
                 "every file-system sink (fs::*, NamedTempFile, persist, SymbolFile::from_file, exists/is_file/...) receives a root or such a joined path "
-                "(c17_src_sinks_known, c17_src_sinks_contained). The tree before the fixes is refuted (c17_relative_unfixed_refuted, c17_url_unencoded_refuted). "
+                "(c17_src_sinks_known, c17_src_sinks_contained), over the whole crate: every call of a file-system callee in any file is one of these sinks "
+                "(c17_src_sink_calls_covered; closed callee vocabulary enforced by the translator) and no path is edited in place outside the compiled builders "
+                "(c17_src_no_path_edits). The tree before the fixes is refuted (c17_relative_unfixed_refuted, c17_url_unencoded_refuted). "
                 "Tie to the code: the extracted GENERATED model and the real code run on ~100k (code_file, debug_file, ids) cases in debug and release builds; "
                 "url probe (every request of HttpSymbolSupplier against a loopback server predicted by the model, ~12.6k) and filesystem probe (paths returned and "
                 "files created by both suppliers predicted by the flow model, ~4.5k; two sandboxes per case) ; an independent oracle re-checks the three "
                 "conditions, a real std::path join, request targets and sandbox containment on the implementation's answers.",
         "note": "Trusted: Coq kernel; the Rust-to-Gallina compiler and the std vocabulary C17/Prims.v (validated by the correspondence run on the generated "
-                "model, not verified); the regex-based data-flow extraction of consumers and sinks (unknown provenance is reported; unrecognised spellings are "
-                "outside the guard); Path::join semantics from std's source (Windows rules cannot be executed here: model-only; Path::parent not modelled); "
-                "hand-written model of url 2.5.4 path resolution and of debugid's rendering, both compared with the real crates on every run; ASCII case "
+                "model, not verified); the regex-based data-flow extraction of consumers and sinks (unknown provenance is reported; an unknown callee name in a "
+                "path-handling file aborts the translator; calls through closures / other crates' traits and `.into()` conversions are outside the guard); Path::join semantics from std's source (Windows rules cannot be executed here: model-only; Path::parent not modelled); "
+                "hand-written model of url 2.5.4 reference resolution (all branches of the dispatch; host text uninterpreted) and of debugid's rendering, both compared with the real crates on every run; ASCII case "
                 "mapping. No axioms.",
     }
     assumptions = ["module strings are valid UTF-8 (they are Rust `str`); bytes >= 128 are never separators",
                    "debug/code id text is hex-only: proved for the model of debugid's rendering (C17/IdModel.v, all values), observed on every case through "
                    "the real constructors; the older theorems keep it as a hypothesis",
-                   "URL theorems: path only (host, query, fragment not modelled); base is an http/https URL; strings are byte lists with elements 0..255"]
+                   "URL theorems: scheme, authority text and path (host syntax, query, fragment not modelled); base is an http/https/ws/wss/ftp URL that can be a base; strings are byte lists with elements 0..255"]
 
     # ------------------------------------------------------------------ cases
     def source_literals(self):
